@@ -76,7 +76,9 @@ func genStatements(c *core.Check, emit func(Program) bool) {
 func genDeclarations(c *core.Check, emit func(Program) bool) {
 	forms := []string{"var x=h1(1)", "var x", "x=h1(2)", "h1(x)", "var y=x", "let z=x;h1(z)", "{var x=5}", "{let x=6;h1(x)}", "for(var x=0;x<1;x++);", "for(var i=0;i<2;i++){var x=i}", "function x(){}", "var f=function(){return x};h1(f())", "h1(typeof x)",
 		"var [x,y]=[1,2]", "var {x}=({x:7})", "if(a)var x=8", "for(var x in {k:1});", "for(let x of [9])h1(x)", "h1(x,y)", "var x=1,y=x+1", "y=3", "var y", "var fs=[];for(let i=0;i<2;i++)fs.push(()=>i);h1(fs[0](),fs[1]())", "var gs=[];for(var i=0;i<2;i++)gs.push(()=>i);h1(gs[0](),gs[1]())",
-		"x=y=h1(4)", "var x=y=h1(5)", "const k=1;h1(k)", "var {x=1,...r}=a||{};h1(r)", "var [x=1,...s]=a||[];h1(s)", "try{throw 1}catch(x){h1(x)}", "try{throw 1}catch(x){var x=2}", "switch(a){case 0:var x=3}"}
+		"x=y=h1(4)", "var x=y=h1(5)", "const k=1;h1(k)", "var {x=1,...r}=a||{};h1(r)", "var [x=1,...s]=a||[];h1(s)", "try{throw 1}catch(x){h1(x)}", "try{throw 1}catch(x){var x=2}", "switch(a){case 0:var x=3}",
+		// initializers with effects next to destructuring declarators: the calls keep their order whatever is moved or merged
+		"var p=h1(6),[q]=[h1(7)]", "var p2=h1(8),{r2}={r2:h1(9)}", "var u=h1(10),[v]=h1(11)||[],w=h1(12)"}
 	n := c.Pick(2, 3)
 	seq := core.Sequences{K: len(forms), MaxLen: n}
 	vec := vectorsOver([]string{"0", "1", "obj"}, 1)
